@@ -11,6 +11,7 @@ import (
 	"errors"
 	"fmt"
 	"io"
+	"strings"
 	"testing"
 	"time"
 
@@ -56,6 +57,36 @@ var c01NonStatus = []struct {
 	{"wrapped-NotFound-status", fmt.Errorf("c01 wrap: %w", status.Error(gcodes.NotFound, "c01"))},
 }
 
+// c01RegistryProbe: the named registry's entry point must return. On a healthy
+// tree the probe takes microseconds; a fired watchdog with goroutines parked in
+// breaker.Get on the registry lock is the witness of C01:registry:hang.
+func c01RegistryProbe(m *vk.M) bool {
+	const wd = 45 * time.Second
+	ok := vk.Within(wd, func() {
+		for i := 0; i < 3; i++ {
+			n := fmt.Sprintf("c01-probe-%d-%d", vk.Seq(), i)
+			if breaker.Get(n) != breaker.Get(n) {
+				m.Violate("C01:registry:identity", "case=0;registry probe", "Get(%q) returned two different breakers", n)
+			}
+		}
+	})
+	if ok {
+		return true
+	}
+	var parked []string
+	for _, b := range vk.GoroutinesIn("lib/breaker.Get(") {
+		if strings.Contains(b, "sync.(*RWMutex)") || strings.Contains(b, "semacquire") {
+			parked = append(parked, b)
+		}
+	}
+	if len(parked) > 0 {
+		m.Violate("C01:registry:hang", "case=0;registry probe: Get(name) twice for three fresh names", "breaker.Get did not return within %v; %d goroutine(s) parked on the registry lock:\n%s", wd, len(parked), strings.Join(parked, "\n\n"))
+	} else {
+		m.Inconclusive("registry probe did not finish within %v and no goroutine is parked in breaker.Get", wd)
+	}
+	return false
+}
+
 func TestVerifC01ServerInterceptorTable(t *testing.T) {
 	m := vk.New(t, "C01", "serverinterceptors.UnaryBreakerInterceptor and StreamBreakerInterceptor with a handler answering one gRPC code, one FullMethod (= one named breaker) per row and flavour, virtual clock frozen: benign code x150 and each error without a gRPC status (plain, custom type, raw context.Canceled, io.EOF, wrapped benign status) x150 => handler always runs; failing code x400 => at least one call short-circuited with ErrServiceUnavailable; 10000 mixed benign codes => 0 rejections; non-trivial = row completed (benign) / rejected (failing)")
 	defer m.Done()
@@ -63,6 +94,9 @@ func TestVerifC01ServerInterceptorTable(t *testing.T) {
 	stat.SetReporter(nil)
 	timex.VerifFakeClock(1000*time.Hour + time.Duration(m.Rand("clock").Int63n(int64(time.Hour))))
 	defer timex.VerifRealClock()
+	if !c01RegistryProbe(m) {
+		return
+	}
 	r := m.Rand("server")
 	perBenign := vk.N(150, 2000)
 	perBad := vk.N(400, 4000)
@@ -175,5 +209,38 @@ func TestVerifC01ServerInterceptorTable(t *testing.T) {
 			}
 		}
 		m.Case(flavour+"-mixed-benign", true)
+
+		// ---- sustained mix of benign and failing codes below the trip threshold: nothing may be
+		// rejected while the outcomes seen satisfy total-5 <= 1.5*accepts (frozen clock)
+		for _, share := range []int{10, 30} {
+			mixMethod := fmt.Sprintf("/c01.%s.%s/mix%d", tag, flavour, share)
+			n := vk.N(3000, 30000)
+			var acc, tot int64
+			okRow := true
+			failingCodes := []gcodes.Code{gcodes.DeadlineExceeded, gcodes.Internal, gcodes.Unavailable, gcodes.DataLoss, gcodes.Unimplemented}
+			for k := 0; k < n; k++ {
+				bad := r.Intn(100) < share
+				c := benign[r.Intn(len(benign))]
+				if bad {
+					c = failingCodes[r.Intn(len(failingCodes))]
+				}
+				must := 2*(tot-5) <= 3*acc
+				ran, err := call(flavour, mixMethod, c)
+				m.Count("calls_mixed_success_failure", 1)
+				if !ran {
+					if must {
+						m.Violate("C01:mixed:grpc-server-"+flavour+":rejected-below-threshold", fmt.Sprintf("case=%d;%d%% failing codes among benign ones", fi*100+80+share, share), "call #%d (%s) was rejected (%v) although the %d admitted calls so far were %d benign and %d failing, i.e. total-5 <= 1.5*successes", k, c, err, tot, acc, tot-acc)
+						okRow = false
+						break
+					}
+					continue
+				}
+				tot++
+				if !bad {
+					acc++
+				}
+			}
+			m.Case(fmt.Sprint(flavour+"-mixed-success-failure", share, okRow), okRow && tot > acc)
+		}
 	}
 }
